@@ -56,14 +56,14 @@ Lemma gc_ops_are_dels now d o : In o (gc_ops now d) -> exists h, o = ODel h.
 Proof. unfold gc_ops. intros H. apply in_map_iff in H. destruct H as [b [<- _]]. eauto. Qed.
 
 (* what LMDBStorage.add_event queues satisfies the side condition of "add" *)
-Lemma add_event_op_ok valid now d raw a b op :
+Lemma add_event_op_ok valid now d pending raw a b op :
   (forall w, valid w = true -> hex64 (w_id w) = true /\ hex64 (w_pubkey w) = true) -> now <> 0 ->
-  add_event valid now d raw = (a, b, Some op) -> op_ok d op.
+  add_event valid now d pending raw = (a, b, Some op) -> op_ok d op.
 Proof.
   intros V N. unfold add_event.
   destruct (valid (ctor now raw)) eqn:Ev; simpl; [|discriminate].
   destruct (is_ephemeral_kind _); [discriminate|]. destruct (storable _); simpl; [|discriminate].
-  destruct (id_bytes _); [|discriminate]. destruct (get _ d) as [[|r]|]; intros H; try discriminate; injection H as _ _ <-;
+  destruct (id_bytes _); [|discriminate]. destruct (mem_str _ pending); [discriminate|]. destruct (get _ d) as [[|r]|]; intros H; try discriminate; injection H as _ _ <-;
     (destruct (V _ Ev) as [V1 V2]; split; [exact V1|split; [exact V2|]];
      unfold ctor; destruct (w_created raw =? 0) eqn:E; simpl; lia).
 Qed.
